@@ -8,7 +8,7 @@
               constant of the same name and another value), concatenated with +
      handler  "method" | "ptrmethod" | "func" | "importedfunc" | "importedmethod" | "literal"
      input    "none" | "int" | "struct" | "slice" | "ptr"      (c.Bind(&in) / c.Bind(in) with in a pointer)
-     query    atoms: "plain:<name>" (c.QueryParam) | "bool:<name>" | "int64:<name>" (typed helpers) | "generic:<name>" (QueryParamInt[IdDossier])
+     query    atoms: "plain:<name>" (c.QueryParam) | "bool:<name>" | "int64:<name>" (typed helpers) | "generic:<name>" (QueryParamInt[IdDossier]) | "pkggeneric:<name>" (inner.QueryParamInt[IdDossier])
      form     [values : Seq(name), file : name or "", json : name or "", jsonkind : "" | "struct" | "string"]
      ret      "none" | "json" | "jsonlit" | "pretty" | "blob"
    Types are written as Go type strings with PKG standing for the package of the route file.      *)
